@@ -292,7 +292,7 @@ def evaluate(ctx, prog, b, recs, trace):
             continue
         rr = [x for x in steps.get(i, []) if x["op"] == "replica"]
         if not rr or rr[0].get("died"):
-            raise vlib.Inconclusive("%s: replica observer died: %s" % (name, rr[0].get("log", "")[-500:] if rr else "no record"))
+            raise vlib.Inconclusive("%s: replica observer died: %s" % (name, rr[0].get("log", "")[:2500] if rr else "no record"))
         rep = rr[0]
         ex = rep["extra"]
         if rep.get("err"):
